@@ -67,6 +67,7 @@ pub const STAGES: &[&str] = &[
     "Plan::new",                     // 24
     "subset_font",                   // 25
     "cff2 charstring: draw",         // 26
+    "capacity family: cff hinted draw", // 27
 ];
 
 /// Called by drivers immediately before a call into the code under test.
